@@ -21,7 +21,7 @@ Open Scope Z_scope.
 Theorem C11_served_requires_permit : forall w s ev,
   reachable w s ->
   let o := snd (step w s ev) in
-  is_request ev = true -> fst (target s ev) = APull ->
+  is_request ev = true -> fst (target s ev) = APull -> url_ok ev = true ->
   granted ev o = true -> keepalive s ev = false ->
   exists u r, identity s ev = Some u /\ rights_now (users s) u = Some r /\
               permits r PULL (served_key (snd (target s ev))) = true.
@@ -48,14 +48,52 @@ Print Assumptions C11_served_is_the_decided_resource.
 (* since CanonicalPath is idempotent (Proofs/CanonProofs.v, /repo 1c2de2b) the class ev_ok is everything: every path a
    reachable state hands to a permission check is a canonical path, which the pattern language and the registry read
    as the same resource; the strict oracle accepts the model on every history *)
-Theorem C11_guard_always_holds : forall w s ev, reachable w s -> ev_ok s ev = true.
+Theorem C11_guard_always_holds : forall w s ev, reachable w s -> url_ok ev = true -> ev_ok s ev = true.
 Proof. exact ev_ok_reachable. Qed.
 Print Assumptions C11_guard_always_holds.
 
 Theorem C11_model_passes_strict : forall w users0 ext evs,
+  forallb url_ok evs = true ->
   ok_run_strict w (state0 users0 ext) evs (run w (state0 users0 ext) evs) = true.
 Proof. exact model_passes_strict. Qed.
 Print Assumptions C11_model_passes_strict.
+
+(* url_ok is trivially true except for an arbitrary URL (EUrl) whose extension is exactly ".ts": there the
+   interceptor checks the canonical stream path cut before its last element, and url_ok says that this path reads the
+   same in the pattern language and in the registry (computed by the oracle for every generated URL) *)
+Theorem C11_url_ok_not_ts : forall u t h, bytes_eqb (path_ext u) EXT_TS = false -> url_ok (EUrl u t h) = true.
+Proof. exact url_ok_not_ts. Qed.
+Print Assumptions C11_url_ok_not_ts.
+
+(* the /streams/ front end reads a URL twice, by separate code: permissionInterceptor (which path the right is checked
+   on: url_icp) and onStreamsRequest + hls.GetTS (which stream, kind and sequence number are served: url_handler).
+   They agree on every URL: whenever the handler serves something, it is of the very path the interceptor checked *)
+Theorem C11_url_derivations_agree : forall u kind p n,
+  url_handler false true u = HServe kind p n -> url_icp true u = p.
+Proof. exact url_derivations_agree. Qed.
+Print Assumptions C11_url_derivations_agree.
+
+(* served HTTP resource (stream, kind) => permit on that stream's canonical path, for every URL spelling *)
+Theorem C11_url_served_requires_permit : forall w s u t h kind p n,
+  reachable w s -> url_ok (EUrl u t h) = true ->
+  o_code (snd (step w s (EUrl u t h))) = 200 ->
+  url_handler false true u = HServe kind p n ->
+  exists v r, token_identity s t = Some v /\ rights_now (users s) v = Some r /\
+              permits r PULL (canonical_path p) = true.
+Proof. exact url_served_requires_permit. Qed.
+Print Assumptions C11_url_served_requires_permit.
+
+(* dispatch on the lower-cased extension (not the code): /streams/a/b/3.TS is decided on /a/b/3 and serves segment 3 of
+   /a/b; the oracle's source clause fails.  The code answers 404 there and 403 for the lower-case spelling *)
+Theorem C11_url_ext_case_refuted :
+  url_handler true true u_TS = HServe 2 p_ab 3 /\ url_icp true u_TS = p_ab3 /\
+  o_code (snd (step_url_gen true true w2 s5 u_TS (TA 0) [])) = 200 /\
+  judge w2 s5 (EUrl u_TS (TA 0) []) (snd (step_url_gen true true w2 s5 u_TS (TA 0) [])) &&
+  judge_src w2 s5 (EUrl u_TS (TA 0) []) (snd (step_url_gen true true w2 s5 u_TS (TA 0) [])) = false /\
+  o_code (snd (step w2 s5 (EUrl u_TS (TA 0) []))) = 404 /\
+  o_code (snd (step w2 s5 (EUrl u_ts_lower (TA 0) []))) = 403.
+Proof. exact url_ext_case_refuted. Qed.
+Print Assumptions C11_url_ext_case_refuted.
 
 (* two spellings with the same segments are the same path to the documented language; hence on ev_ok the decision
    on the path the code checks is the decision on the served resource *)
@@ -167,7 +205,7 @@ Print Assumptions C11_access_check_is_spec.
 
 (* callers who hold the right are not refused *)
 Theorem C11_holder_not_refused : forall w s ev,
-  reachable w s -> is_request ev = true ->
+  reachable w s -> is_request ev = true -> url_ok ev = true ->
   allowed s ev = true -> feasible w s ev = true ->
   accepted ev (snd (step w s ev)) = true.
 Proof. exact holder_of_served_not_refused_always. Qed.
